@@ -40,6 +40,14 @@ M = [
     ('c18-isapprox-ignores-eps', 'impl/lie_group_base.h', '  return rminus(m).isApprox(Tangent::Zero(), eps);', '  return rminus(m).isApprox(Tangent::Zero());', ['C18']),
     ('c19-sgal3-smalladj-matrix3d', 'impl/sgal3/SGal3Tangent_base.h', '-t() * Eigen::Matrix<Scalar, 3, 3>::Identity();', '-t() * Eigen::Matrix3d::Identity();', ['C19']),
     ('c19-functions-typo', 'functions.h', '  lie_group.setIdentity();', '  lie_group.identity();', ['C19']),
+    # reverts of the repairs (old == '@git': the file is replaced by its content at the given commit): the checks must see the original defects
+    ('revert-1-cos-fix(F13)', 'impl/so3/SO3Tangent_base.h', '@git', '8911bb3~1', ['C12']),
+    ('revert-sgal3-fillE-fix(F5)', 'impl/sgal3/SGal3Tangent_base.h', '@git', 'baaa47e~1', ['C12', 'C02']),
+    ('revert-se2-jacobian-fix(F1,F2)', 'impl/se2/SE2Tangent_base.h', '@git', 'ce998f3~1', ['C05', 'C06', 'C12']),
+    ('revert-sgal3-ljac-fix(F3)', 'impl/sgal3/SGal3Tangent_base.h', '@git', '274e776~1', ['C05', 'C06']),
+    ('revert-bundle-cast-fix', 'impl/bundle/Bundle_base.h', '@git', 'ef892cc~1', ['C08', 'C13']),
+    ('revert-rn-transform-fix', 'impl/rn/Rn.h', '@git', '6aaa354~1', ['C01']),
+    ('revert-cubic-fix(F10)', 'algorithms/interpolation.h', '@git', 'fb2aa18~1', ['C15']),
     ('c07-se23-generators-swapped', 'impl/se_2_3/SE_2_3Tangent_base.h', None, None, ['C07']),
     ('c07-se2-innerweights', 'impl/se2/SE2Tangent_base.h', 'Scalar(0), Scalar(0), Scalar(2) ).finished()', 'Scalar(0), Scalar(0), Scalar(1) ).finished()', ['C07']),
     ('c07-bundle-generator-index-le', 'impl/bundle/BundleTangent_base.h', '      i < BundleTangentBase<Derived>::DoF,', '      i <= BundleTangentBase<Derived>::DoF,', ['C07']),
@@ -72,11 +80,17 @@ def run(name):
     _, f, old, new, props = ent[0]
     path = R + f
     src = open(path).read()
-    if src.count(old) != 1:
-        print('%s: pattern matches %d times in %s' % (name, src.count(old), f)); return None
+    if old == '@git':
+        mutated = subprocess.run(['git', '-C', '/repo', 'show', '%s:include/manif/%s' % (new, f)], stdout=subprocess.PIPE, universal_newlines=True).stdout
+        if not mutated or mutated == src:
+            print('%s: nothing to revert' % name); return None
+    else:
+        if src.count(old) != 1:
+            print('%s: pattern matches %d times in %s' % (name, src.count(old), f)); return None
+        mutated = src.replace(old, new)
     res = {}
     try:
-        open(path, 'w').write(src.replace(old, new))
+        open(path, 'w').write(mutated)
         for p in props:
             t0 = time.time()
             r = sh('VERIF_REPO=%s python3 %s/check.py %s --tier quick' % (SCR_REPO, SCR_VERIF, p))
